@@ -1,4 +1,16 @@
+//! verif-engine: checks that drive the real `warp_core::Engine`, scheduler,
+//! tick patches, state roots and footprint enforcement (C01 C02 C03 C04 C06 C14).
+
+mod c03;
+
 fn main() {
     let args = verif_core::Args::parse();
-    println!("{args:?} {:?}", warp_core::make_node_id("x"));
+    let code = match args.prop.as_str() {
+        "C03" => c03::run(&args),
+        other => {
+            println!("HARNESS-ERROR unknown property {other}");
+            2
+        }
+    };
+    std::process::exit(code);
 }
